@@ -71,6 +71,10 @@ def gen_string(rng, allow_empty=False):
     r = rng.random()
     if r < 0.15:
         s = rng.choice(["1.0", "2", "v1", "a:b", "a#b", "x::y", "1:2#3", "m:f", "m:f#1", "::", "#", ":", "a::m:f", "@x"])
+    elif r < 0.25:
+        # strings that look like names the store uses for its own files and directories
+        s = rng.choice(["1.link", "rel.link", ".link", "a.tmp", ".tmp", ".versions", "x.memento.json", "1.metadata.log", "c", "m",
+                        "v.link.tmp", "link", "1.json"])
     return s
 
 
